@@ -29,6 +29,34 @@ type c03Case struct {
 	ExtNil bool             `json:"ext_nil,omitempty"`
 	Class  string           `json:"class"`
 	Muts   []gen.Mutation   `json:"mutations,omitempty"`
+	// KeyWas (class "key", EC2 / OKP keys): the verifier at that position is obtained from a COSE_Key
+	// object that held KeyWas[i] and had yielded a verifier for it before its parameters were
+	// overwritten in place with those of VKeys[i]
+	KeyWas []refcose.KeyMat `json:"key_was,omitempty"`
+}
+
+// verifierFromEditedKey: Key.Verifier() on a key object that was a different key a moment ago.
+func verifierFromEditedKey(was, now refcose.KeyMat) (cose.Verifier, error) {
+	k, err := cose.NewKeyFromPublic(was.Public())
+	if err != nil {
+		return nil, err
+	}
+	if _, err := k.Verifier(); err != nil {
+		return nil, err
+	}
+	k.PublicKey()
+	k2, err := cose.NewKeyFromPublic(now.Public())
+	if err != nil {
+		return nil, err
+	}
+	for l := range k.Params {
+		delete(k.Params, l)
+	}
+	for l, v := range k2.Params {
+		k.Params[l] = v
+	}
+	k.Type, k.Algorithm = k2.Type, k2.Algorithm
+	return k.Verifier()
 }
 
 func (c *c03Case) ext() []byte {
@@ -120,8 +148,12 @@ func checkC03(c c03Case) error {
 	}
 	ext := c.ext()
 	var vs []cose.Verifier
-	for _, km := range c.VKeys {
+	for i, km := range c.VKeys {
 		v, err := libVerifier(km, false)
+		if i < len(c.KeyWas) && c.KeyWas[i].Alg != 0 && km.Family() != "rsa" && c.KeyWas[i].Family() != "rsa" && km.Curve == 0 && c.KeyWas[i].Curve == 0 {
+			v, err = verifierFromEditedKey(c.KeyWas[i], km)
+			stats.Class("verifier-from-key-object-edited-in-place")
+		}
 		if err != nil {
 			return fmt.Errorf("harness: verifier: %v", err)
 		}
@@ -553,7 +585,11 @@ func genC03Case(t *rapid.T) c03Case {
 			c.VKeys[i] = nk
 			c.Muts = []gen.Mutation{{Op: "key/same-key-other-alg"}}
 		}
-		if len(c.VKeys) > 1 && rapid.IntRange(0, 3).Draw(t, "permute-keys") == 0 {
+		if rapid.Bool().Draw(t, "key-object-edited") {
+			c.KeyWas = make([]refcose.KeyMat, len(c.VKeys))
+			c.KeyWas[i] = old
+			c.Muts = append(c.Muts, gen.Mutation{Op: "key/key-object-edited-in-place"})
+		} else if len(c.VKeys) > 1 && rapid.IntRange(0, 3).Draw(t, "permute-keys") == 0 {
 			j := rapid.IntRange(0, len(c.VKeys)-1).Draw(t, "keyswap")
 			c.VKeys[i], c.VKeys[j] = c.VKeys[j], c.VKeys[i]
 			c.Muts = append(c.Muts, gen.Mutation{Op: "key/permuted"})
